@@ -636,19 +636,31 @@ Section PointRoundTrip.
     cbn [map forallb wf_cbor]. rewrite IH, andb_true_r. unfold lenN. rewrite point_encode_length. reflexivity.
   Qed.
 
-  (* MarshalBinary -> UnmarshalBinary gives back the polynomial; the 4-byte count may be anything that is
-     at least the number of coefficients (it is not compared with the array) *)
+  Lemma exponent_tree_length c pts : (length pts <= length (encode (exponent_tree c (Some pts))))%nat.
+  Proof.
+    unfold exponent_tree. cbn [encode flat_map fst snd]. rewrite !app_length.
+    pose proof (flat_map_encode_length (map (fun P => CBytes (point_encode P)) pts)) as H.
+    rewrite map_length in H. lia.
+  Qed.
+
+  (* MarshalBinary -> UnmarshalBinary gives back the polynomial.  The 4-byte count is still not compared with
+     the array: anything between the number of coefficients and the input length is accepted *)
   Theorem exponent_roundtrip_gen c pts size :
     Forall finite_on_curve pts -> (lenN pts <= size)%N -> (size < 4294967296)%N ->
+    (size <= lenN (be_bytes 4 size ++ encode (exponent_tree c (Some pts))))%N ->
     exponent_decode (be_bytes 4 size ++ encode (exponent_tree c (Some pts))) = Ok (c, pts).
   Proof.
-    intros Hpts Hle Hsize. unfold exponent_decode.
+    intros Hpts Hle Hsize Hlen. unfold exponent_decode.
+    set (body := encode (exponent_tree c (Some pts))) in *.
     assert (L : length (be_bytes 4 size) = 4%nat) by apply be_bytes_length.
-    assert (Hlt : (length (be_bytes 4 size ++ encode (exponent_tree c (Some pts))) <? 4)%nat = false).
+    assert (Hlt : (length (be_bytes 4 size ++ body) <? 4)%nat = false).
     { apply Nat.ltb_ge. rewrite app_length, L. lia. }
-    rewrite Hlt. rewrite (firstn_app_len _ _ _ L). rewrite (skipn_app_len _ _ _ L).
+    rewrite Hlt.
+    rewrite (firstn_app_len (be_bytes 4 size) body 4 L), (skipn_app_len (be_bytes 4 size) body 4 L).
     rewrite be_val_be_bytes. rewrite N.mod_small by exact Hsize.
-    unfold exponent_decode_body.
+    assert (Hc : (lenN (be_bytes 4 size ++ body) <? size)%N = false) by (apply N.ltb_ge; exact Hlen).
+    rewrite Hc.
+    unfold exponent_decode_body, body.
     rewrite <- (app_nil_r (encode _)), cbor_roundtrip
       by (apply exponent_tree_wf; unfold two64; lia).
     unfold exponent_tree.
@@ -664,7 +676,33 @@ Section PointRoundTrip.
     Forall finite_on_curve pts -> (lenN pts < 4294967296)%N ->
     exponent_decode (exponent_encode c (Some pts)) = Ok (c, pts).
   Proof.
-    intros Hpts Hl. unfold exponent_encode, coeff_count. apply exponent_roundtrip_gen; auto. lia.
+    intros Hpts Hl. unfold exponent_encode, coeff_count. apply exponent_roundtrip_gen; auto; [lia|].
+    unfold lenN. rewrite app_length. pose proof (exponent_tree_length c pts). lia.
+  Qed.
+
+  (* before the fix any count >= the number of coefficients (below 2^32) was accepted *)
+  Theorem exponent_v0_count_unchecked c pts size :
+    Forall finite_on_curve pts -> (lenN pts <= size)%N -> (size < 4294967296)%N ->
+    exponent_decode_v0 (be_bytes 4 size ++ encode (exponent_tree c (Some pts))) = Ok (c, pts).
+  Proof.
+    intros Hpts Hle Hsize. unfold exponent_decode_v0.
+    set (body := encode (exponent_tree c (Some pts))) in *.
+    assert (L : length (be_bytes 4 size) = 4%nat) by apply be_bytes_length.
+    assert (Hlt : (length (be_bytes 4 size ++ body) <? 4)%nat = false).
+    { apply Nat.ltb_ge. rewrite app_length, L. lia. }
+    rewrite Hlt.
+    rewrite (firstn_app_len (be_bytes 4 size) body 4 L), (skipn_app_len (be_bytes 4 size) body 4 L).
+    rewrite be_val_be_bytes. rewrite N.mod_small by exact Hsize.
+    unfold exponent_decode_body, body.
+    rewrite <- (app_nil_r (encode _)), cbor_roundtrip
+      by (apply exponent_tree_wf; unfold two64; lia).
+    unfold exponent_tree.
+    replace (bytes_eqb k_isconstant k_isconstant) with true by reflexivity.
+    replace (bytes_eqb k_coefficients k_coefficients) with true by reflexivity.
+    cbn [andb fld_bool].
+    assert (E : (lenN (map (fun P => CBytes (point_encode P)) pts) <=? size)%N = true).
+    { apply N.leb_le. unfold lenN in *. now rewrite map_length. }
+    rewrite E, decode_points_rt by assumption. reflexivity.
   Qed.
 End PointRoundTrip.
 
@@ -672,9 +710,35 @@ End PointRoundTrip.
 Theorem exponent_roundtrip_nil c : exponent_decode (exponent_encode c None) = Ok (c, []).
 Proof. destruct c; vm_compute; reflexivity. Qed.
 
-(* fewer than four bytes: binary.BigEndian.Uint32 panics (index out of range) *)
-Theorem exponent_decode_short_panics bs : (length bs < 4)%nat -> exponent_decode bs = Panic.
+(* since fix 7b3b4da: fewer than four bytes, or a count larger than the input, is an error ... *)
+Theorem exponent_decode_short_errors bs : (length bs < 4)%nat -> exponent_decode bs = Err 1.
 Proof. intro H. unfold exponent_decode. apply Nat.ltb_lt in H. now rewrite H. Qed.
+
+Theorem exponent_decode_count_checked bs :
+  (lenN bs < be_val (firstn 4 bs))%N -> exists c, exponent_decode bs = Err c.
+Proof.
+  intro H. unfold exponent_decode. destruct (length bs <? 4)%nat; [now exists 1%N|].
+  apply N.ltb_lt in H. rewrite H. now exists 1%N.
+Qed.
+
+(* ... and UnmarshalBinary never panics, whatever the input *)
+Lemma exponent_decode_body_no_panic size cb : exponent_decode_body size cb <> Panic.
+Proof.
+  unfold exponent_decode_body.
+  repeat match goal with
+         | |- context [match ?x with _ => _ end] => destruct x
+         end; discriminate.
+Qed.
+
+Theorem exponent_decode_total bs : exponent_decode bs <> Panic.
+Proof.
+  unfold exponent_decode. destruct (length bs <? 4)%nat; [discriminate|].
+  destruct (lenN bs <? be_val (firstn 4 bs))%N; [discriminate|]. apply exponent_decode_body_no_panic.
+Qed.
+
+(* before the fix: binary.BigEndian.Uint32 panicked (index out of range) below four bytes *)
+Theorem exponent_decode_v0_short_panics bs : (length bs < 4)%nat -> exponent_decode_v0 bs = Panic.
+Proof. intro H. unfold exponent_decode_v0. apply Nat.ltb_lt in H. now rewrite H. Qed.
 
 (* ------------------------------------------------------------------------------------------------ *)
 (* cmp config: what UnmarshalBinary checks against what the property calls valid                     *)
